@@ -237,6 +237,7 @@ func (tree *Tree[T]) Remove(pattern string, methods ...string) {
 		child.parent.buildIndexes()
 		child = child.parent
 	}
+	child.mergeChild()
 
 	tree.recountMethods()
 }
